@@ -5,6 +5,7 @@ go 1.22
 require (
 	github.com/anishathalye/porcupine v1.3.0
 	github.com/karagenc/socket.io-go v0.0.0
+	nhooyr.io/websocket v1.8.11
 )
 
 require (
@@ -23,7 +24,6 @@ require (
 	golang.org/x/net v0.27.0 // indirect
 	golang.org/x/sys v0.22.0 // indirect
 	golang.org/x/text v0.16.0 // indirect
-	nhooyr.io/websocket v1.8.11 // indirect
 )
 
 replace github.com/karagenc/socket.io-go => /repo
